@@ -65,6 +65,10 @@ FAMILIES = {
             "V": ("struct V { struct U u[3]; S_tt *pp; };", "struct V;", ["U"], ["S_tt"]),
             "F": ("typedef float F;", None, [], []),
             "W": ("struct W { F f; struct V *v; };", "struct W;", ["F"], []),
+            # a SIMD vector over a typedef'd float: float-ness travels through the vector to its users
+            "VF": ("typedef F VF __attribute__((vector_size(16)));", None, ["F"], []),
+            "HV": ("struct HV { VF lanes; int id; };", "struct HV;", ["VF"], []),
+            "HHV": ("struct HHV { struct HV h[2]; struct W *w; };", "struct HHV;", ["HV"], ["W"]),
         }},
     "templates": {
         "lang": "c++", "flags": [],
